@@ -486,6 +486,50 @@ INDEX_PROGRAMS = [
     "x0 = PrivVal(I[0])\ni = PrivVal(I[2])\nj = i + PrivVal(I[3])\nA = Array([1, 2, x0, 4, 5])\nr = A[j] + A[i] * 2 + 0\n",
 ]
 
+# loops whose bound is a secret: with and without max=, one- and two-argument forms, while loops.  I[2], I[3] are the bounds.
+LOOP_PROGRAMS = [
+    "_ = BranchingValues()\n_.s = PrivVal(I[0])\nfor i in _range(PrivVal(I[2])):\n    _.s = _.s + i * I[1]\n_endfor()\nr = _.s + 0\n",
+    "_ = BranchingValues()\n_.s = PrivVal(I[0])\nfor i in _range(PrivVal(I[2]), max=4):\n    _.s = _.s * 2 + i\n_endfor()\nr = _.s + 0\n",
+    "_ = BranchingValues()\n_.s = PrivVal(I[0])\nfor i in _range(PrivVal(I[3]), PrivVal(I[2]) + PrivVal(I[3])):\n    _.s = _.s + PrivVal(I[1])\n_endfor()\nr = _.s + 0\n",
+    "_ = BranchingValues()\n_.s = PrivVal(I[0])\nfor i in _range(1, PrivVal(I[2]) + 1, max=5):\n    _.s = _.s + i * i\n_endfor()\nr = _.s + 0\n",
+    "_ = BranchingValues()\n_.s = PrivVal(I[0])\n_.n = PrivVal(I[2])\nk = 0\nwhile _while(_.n > 0) and k < 5:\n    _.s = _.s + _.n\n    _.n = _.n - 1\n    k += 1\n_endwhile()\nr = _.s + 0\n",
+    "_ = BranchingValues()\n_.s = PrivVal(I[0])\nn = PrivVal(I[2])\nfor i in _range(n):\n    if _if(_.s > i):\n        _.s = _.s - 1\n    _endif()\n_endfor()\nr = _.s + 0\n",
+]
+
+
+def loop_family(job):
+    """C06 for loops with a secret bound: whatever the bound's value, the runs that complete must emit one constraint system
+    (a form the library refuses - e.g. a secret bound without max= - simply yields no completed runs)."""
+    from vf.gen import prog as G
+    from vf import recorder
+    rt = boot.attach()
+    neutral = boot.Neutral()
+    R = common.Run("C06", LEVEL["C06"], RULES["C06"])
+    rnd = random.Random(job["seed"])
+    for src in LOOP_PROGRAMS:
+        prog = G.Prog(src, [], 16, 0)
+        chunks = G.compile_chunks(src)
+        ref = None
+        for trial in range(job.get("n", 12)):
+            inputs = [rnd.randint(-9, 9), rnd.randint(-9, 9), trial % 5 if trial < 5 else rnd.randint(0, 4), rnd.randint(0, 2)]
+            out = G.run_api(prog, inputs, neutral, modulus=recorder.BN254, chunks=chunks)
+            if out.exc is not None:
+                R.count("loop_family_runs_raised:" + type(out.exc).__name__)
+                continue
+            R.count("loop_family_runs_completed")
+            tr = r1cs.canon_trace(out.snap)
+            lcs = result_lcs(out, recorder.BN254)
+            if ref is None:
+                ref = (inputs, tr, lcs)
+                continue
+            R.count("trace_events_compared", len(tr))
+            R.case(cell="secret-loop-bound-family|%d" % LOOP_PROGRAMS.index(src), key=_hash(src, inputs), nontrivial=inputs[2:] != ref[0][2:])
+            if tr != ref[1] or lcs != ref[2]:
+                pos = next((i for i, (a, b) in enumerate(zip(tr, ref[1])) if a != b), min(len(tr), len(ref[1])))
+                R.violation("trace-depends-on-values", "loop program: canonical trace for bounds %s differs from bounds %s at event %d (lengths %d vs %d)" % (
+                    inputs[2:], ref[0][2:], pos, len(tr), len(ref[1])), src=src, inputs_a=ref[0], inputs_b=inputs, bl=16, res=0, p=recorder.BN254)
+    return {"C06": R.export()}
+
 
 def index_family(job):
     """C06 for secret array indices: every index value - in range with checks on, out of range / negative with checks
@@ -520,6 +564,85 @@ def index_family(job):
                 R.violation("trace-depends-on-values", "array program: canonical trace for indices %s (%s) differs from indices %s at event %d" % (
                     idx, kind, ref[0][2:], pos), src=src, inputs_a=ref[0], inputs_b=inputs, ignore_b=not checked, bl=16, res=0, p=recorder.BN254)
     return {"C06": R.export()}
+
+FOREIGN_OPERANDS = ["3.0", "2.5", "-1.0", "0.0", "-0.0", "1e20", "float(2**60 + 2)", "True", "False", "Fraction(3, 1)", "Fraction(1, 2)",
+                    "Decimal(2)", "None", "'2'", "(2+0j)", "[1]", "2.0 ** 70", "0.5", "1.0", "-3.0"]
+FOREIGN_BINOPS = ["+", "-", "*", "/", "//", "%", "**", "<<", ">>", "&", "|", "^", "<", "<=", ">", ">=", "==", "!="]
+FOREIGN_CALLS = ["{x}.assert_eq({o})", "{x}.assert_ne({o})", "{x}.assert_lt({o})", "{x}.assert_ge({o})", "r = {x}.if_else({o}, {y})", "r = {x}.if_else({y}, {o})",
+                 "r = if_then_else({b}, {x}, {o})", "r = if_then_else({b}, {o}, {x})", "r = divmod({x}, {o})", "r = divmod({o}, {x})",
+                 "r = pow({x}, {o})", "r = abs({x}) * {o}", "r = -({x} * {o})", "r = ({x} + {o}) * {y}", "r = {x} * {o} * {y}"]
+FOREIGN_PRE = "from fractions import Fraction\nfrom decimal import Decimal\nx = PrivVal(I[0])\ny = PrivVal(I[1])\nb = PrivValBool(I[2])\nf = PrivValFxp(I[3])\n"
+
+
+def foreign_operands(job):
+    """C01 / C04 on operands of classes the library was not written for (whole and fractional floats, Fraction, Decimal, None,
+    strings, complex numbers, lists) and on values far beyond the bit length: one operation per run.  Refusing is fine; an operation
+    that returns must satisfy the two properties like any other."""
+    from vf.gen import prog as G
+    from vf import recorder, contracts
+    props = set(job["props"])
+    rt = boot.attach()
+    neutral = boot.Neutral()
+    if "C04" in props:
+        contracts.install_lincomb_contract()
+        contracts.install_val_contracts()
+    contracts.State.track = "C04" in props
+    runs = {p: common.Run(p, LEVEL[p], RULES[p]) for p in props}
+    rnd = random.Random(job["seed"])
+    stmts = []
+    for left in ("x", "b", "f"):
+        for op in FOREIGN_BINOPS:
+            for o in FOREIGN_OPERANDS:
+                stmts.append("r = %s %s %s" % (left, op, o))
+                stmts.append("r = %s %s %s" % (o, op, left))
+    for call in FOREIGN_CALLS:
+        for o in FOREIGN_OPERANDS:
+            for left in ("x", "f"):
+                stmts.append(call.format(x=left, y="y", b="b", o=o))
+    rnd.shuffle(stmts)
+    stmts = stmts[:job.get("n", 400)]
+    big = [(1 << 60) + 1, -(1 << 70) + 3, (1 << 53) + 1, (1 << 64) - 1, 3 * (1 << 55) + 5]
+    for st in stmts:
+        src = FOREIGN_PRE + st + "\n"
+        chunks = G.compile_chunks(src)
+        prog = G.Prog(src, [], 16, rnd.choice([0, 4, 8]))
+        for ignore in ((False, True) if "C04" in props else (False,)):
+            xv = rnd.choice(big + [rnd.randint(-9, 9), 5, 0, 70000, -70000])
+            inputs = [xv, rnd.choice(big + [3, -2]), rnd.randint(0, 1), rnd.choice([1.5, -2.25, 0.0, 3.0, 1000.5])]
+            contracts.clear()
+            out = G.run_api(prog, inputs, neutral, modulus=recorder.BN254, ignore=ignore, chunks=chunks)
+            done = out.exc is None
+            snap = out.snap
+            key = _hash(src, inputs, ignore)
+            for p in props:
+                runs[p].count("foreign_operand_runs")
+                runs[p].count("foreign_operand_runs_returned" if done else "foreign_operand_runs_refused:" + type(out.exc).__name__)
+            if "C01" in props and not ignore:
+                R = runs["C01"]
+                if done:
+                    bad = r1cs.unsatisfied(snap["constraints"], snap["values"], snap["p"])
+                    R.count("constraints_evaluated", len(snap["constraints"]))
+                    R.case(cell="foreign-operand|" + st.split("(")[0][:24], key=key, nontrivial=len(snap["constraints"]) > 0)
+                    if bad or snap["online_bad"]:
+                        R.violation("unsatisfied-constraint", "constraint %d of %d unsatisfied after a run that completed with checks on" % (
+                            (bad or snap["online_bad"])[0], len(snap["constraints"])), src=src, inputs=inputs, bl=16, res=prog.res, p=recorder.BN254, statement=st)
+                else:
+                    R.case(nontrivial=False)
+            if "C04" in props:
+                R = runs["C04"]
+                contracts.sweep("end of run")
+                nobj = len(contracts.State.created)
+                R.count("objects_judged", nobj)
+                R.count("contract_evaluations", contracts.State.evaluations)
+                contracts.State.evaluations = 0
+                contracts.State.val_evaluations = 0
+                R.case(cell="foreign-operand|%s|%s" % ("ignore" if ignore else "checked", "returned" if done else "refused"), key=key, nontrivial=nobj > 4)
+                if contracts.State.mismatches:
+                    o, val, wire, where = contracts.State.mismatches[0]
+                    R.violation("value-wire-mismatch", "reported value %s but wire expression evaluates to %s (%s)" % (val, wire, where),
+                                src=src, inputs=inputs, ignore=ignore, bl=16, res=prog.res, p=recorder.BN254, statement=st, n_mismatches=len(contracts.State.mismatches))
+            contracts.clear()
+    return {p: runs[p].export() for p in props}
 
 
 def fingerprints(job):
